@@ -151,3 +151,21 @@ Theorem C07_sca_uses_generated_loop : forall e a,
             end.
 Proof. exact sca_uses_generated_loop. Qed.
 Print Assumptions C07_sca_uses_generated_loop.
+
+(* Typed half, connected to the Core value model: annotations = nominal classes of the
+   class table generated from the running implementation (Gen/ClassTable.v), acceptance =
+   the implementation's own TypedValue.can_assign on them (`tassign table`), membership =
+   Core's specification for nominal types (`sub_promo`: subclassing + numeric promotion).
+   If the typed signatures are accepted, then for every pair of annotations the comparison
+   looks at, every runtime class that is a member of MY parameter's annotation is a member
+   of THEIR parameter's annotation (parameter contravariance under membership). *)
+Require Import PV.Core.Cls PV.Gen.ClassTable PV.Proofs.C04Witness PV.Proofs.SigAssignTyped.
+Theorem C07_sig_assign_member_contravariant : forall ann_e ann_a le_ret e a,
+  nominal ann_e -> nominal ann_a ->
+  sig_can_assign (le_table ann_e ann_a) le_ret e a = true ->
+  le_ret = true /\
+  exists obs, sca e a = Some obs /\
+    forall t m, In (t, m) obs ->
+      forall c', In c' classes -> sub_promo table c' (ann_e m) = true -> sub_promo table c' (ann_a t) = true.
+Proof. exact sig_assign_member_contravariant. Qed.
+Print Assumptions C07_sig_assign_member_contravariant.
